@@ -352,6 +352,13 @@ func PublishContext[T any](bus *EventBus, ctx context.Context, event T) {
 		bus.beforePublishCtx(ctx, eventType, event)
 	}
 
+	// Persist the event before any handler runs. This used to be chained into
+	// the context hook slot by WithStore, where a WithBeforePublishContext
+	// option given after WithStore silently replaced it
+	if bus.store != nil {
+		bus.persistEvent(ctx, eventType, event)
+	}
+
 	// Get handlers from appropriate shard
 	shard := bus.getShard(eventType)
 	shard.mu.RLock()
